@@ -168,4 +168,24 @@ def render (a : ASide) : Side :=
   let cat := catalogOf a
   (List.range 14).foldl (fun sd k => sd.set (20 * 16 + 2 + k) (((cat.drop (8 * k)).take 8).flatten)) sd
 
+/-! ### which descriptions are well formed (executable) -/
+
+def wfFileB (a : ASide) (f : AFile) : Bool :=
+  decide (f.slot < 112) && f.name.length == 8 && f.ext.length == 3
+  && f.name.getD 0 0 != 0 && f.name.getD 0 0 != 0xFF
+  && !f.chain.isEmpty && decide f.chain.Nodup && f.chain.all (· < 160) && f.chain.all (fun b => !a.reserved.contains b)
+  && decide (1 ≤ f.lastSectors) && decide (f.lastSectors ≤ 8) && decide (f.lastBytes ≤ 255)
+  && decide (255 * (8 * (f.chain.length - 1) + f.lastSectors - 1) + f.lastBytes = f.content.length)
+
+/-- the descriptions `render` is meant for: distinct slots, chains that are duplicate-free, inside
+    the side, off the reserved blocks and pairwise disjoint, sizes that match the contents, deleted
+    entries (first byte 00) in other slots -/
+def wfDescB (a : ASide) : Bool :=
+  a.files.all (wfFileB a)
+  && a.reserved.contains 40 && a.reserved.contains 41
+  && decide (a.files.map (·.slot)).Nodup
+  && decide (a.files.Pairwise (fun f g => ∀ b ∈ f.chain, b ∉ g.chain))
+  && a.deleted.all (fun d => decide (d.1 < 112) && d.2.length == 32 && d.2.getD 0 1 == 0 && a.files.all (fun f => f.slot != d.1))
+  && decide (a.deleted.map (·.1)).Nodup
+
 end Moto.Spec.Dos
